@@ -129,9 +129,10 @@ theorem copyFile_spec (H : Bytes → Hash) (fs : FS) (now : Int) (data : Bytes)
         Gen.Cache.copyReuse (H data) (H f.data)) = true
     · -- the existing file is trusted
       simp only [hre, if_true]
-      refine ⟨fs, rfl, ?_, fun _ _ => rfl⟩
+      refine ⟨_, rfl, ?_, fun m hm => get_refreshReused_ne _ _ _ _ hm⟩
       simp only [Gen.Cache.copyCheckExisting, Gen.Cache.copyReuse, Bool.true_and, Bool.and_eq_true, decide_eq_true_eq] at hre
       have := hcoll f hinfo (by omega) hre.2.symm
+      rw [dataOf_refreshReused]
       simp [dataOf, hinfo, this]
     · simp only [hre, Bool.false_eq_true, if_false]
       by_cases h0 : Gen.Cache.copyEmptyReturn (data.length : Int) = true
@@ -254,5 +255,96 @@ theorem Stored.getFile {H : Bytes → Hash} {fs : FS} {id : Hash} {data : Bytes}
       | none => rw [hf] at hd; simp at hd
       | some f => rw [hf] at hd; simp at hd; exact ⟨f, rfl, hd⟩
     simp [hf, hfd, Gen.Cache.getFileReject]
+
+/-! ### mtimes after Put -/
+
+/-- `copyFile` finds a file of the right length and hash under the output name and trusts it. -/
+def Reused (H : Bytes → Hash) (fs : FS) (data : Bytes) : Prop :=
+  ∃ f, fs.get (fileName (H data) keyD) = some f ∧ f.data.length = data.length ∧ H f.data = H data
+
+theorem copyFile_reused (H : Bytes → Hash) (fs : FS) (now : Int) (data : Bytes) (h : Reused H fs data) :
+    (copyFile H fs now data (H data) data.length).2 = refreshReused fs now (fileName (H data) keyD) := by
+  obtain ⟨f, hf, hl, hh⟩ := h
+  unfold copyFile
+  simp only [hf, Option.isSome_some]
+  have : (Gen.Cache.copyCheckExisting true (f.data.length : Int) (data.length : Int) && Gen.Cache.copyReuse (H data) (H f.data)) = true := by
+    simp [Gen.Cache.copyCheckExisting, Gen.Cache.copyReuse, hl, hh]
+  simp [this]
+
+/-- otherwise the data file is (re)written and carries the time of the Put. -/
+theorem copyFile_fresh (H : Bytes → Hash) (fs : FS) (now : Int) (data : Bytes) (h : ¬ Reused H fs data) :
+    ∃ f, (copyFile H fs now data (H data) data.length).2.get (fileName (H data) keyD) = some f ∧ f.mtime = now := by
+  unfold copyFile
+  simp only []
+  cases hinfo : fs.get (fileName (H data) keyD) with
+  | none =>
+    simp only [Bool.false_eq_true, if_false]
+    repeat' split
+    all_goals simp [FS.get_set]
+  | some f =>
+    simp only [Option.isSome_some]
+    have hre : (Gen.Cache.copyCheckExisting true (f.data.length : Int) (data.length : Int) && Gen.Cache.copyReuse (H data) (H f.data)) = false := by
+      cases hc : (Gen.Cache.copyCheckExisting true (f.data.length : Int) (data.length : Int) && Gen.Cache.copyReuse (H data) (H f.data)) with
+      | false => rfl
+      | true =>
+        exfalso; apply h
+        simp only [Gen.Cache.copyCheckExisting, Gen.Cache.copyReuse, Bool.true_and, Bool.and_eq_true, decide_eq_true_eq] at hc
+        exact ⟨f, hinfo, by omega, hc.2.symm⟩
+    simp only [hre, Bool.false_eq_true, if_false]
+    by_cases h0 : Gen.Cache.copyEmptyReturn (data.length : Int) = true
+    · -- size 0: the existing file is non-empty (else it would have been reused), hence truncated now
+      have hd : data = [] := by simp [Gen.Cache.copyEmptyReturn] at h0; exact h0
+      subst hd
+      simp only [h0, if_true, FS.get_set_self]
+      have hne : f.data ≠ [] := by
+        intro he; apply h
+        exact ⟨f, hinfo, by simp [he], by rw [he]⟩
+      have : Gen.Cache.copyTrunc true (f.data.length : Int) 0 = true := by
+        simp [Gen.Cache.copyTrunc]; exact List.length_pos_iff.mpr hne
+      simp [this]
+    · simp only [h0, Bool.false_eq_true, if_false]
+      repeat' split
+      all_goals simp [FS.get_set]
+
+
+theorem copyFile_fst_ok (H : Bytes → Hash) (fs : FS) (now : Int) (data : Bytes) :
+    (copyFile H fs now data (H data) data.length).1 = .ok () := by
+  by_cases hd : data = []
+  · subst hd
+    unfold copyFile
+    have : Gen.Cache.copyEmptyReturn ((([] : Bytes).length : Nat) : Int) = true := by decide
+    simp only [this, if_true]
+    repeat' split
+    all_goals rfl
+  · have hcat : data.take (Gen.Cache.copyFirstLen (data.length : Int)).toNat ++
+        (data.drop (Gen.Cache.copyFirstLen (data.length : Int)).toNat).take 1 = data := by
+      have : (Gen.Cache.copyFirstLen (data.length : Int)).toNat = data.length - 1 := by
+        simp only [Gen.Cache.copyFirstLen]; omega
+      rw [this]; exact take_drop_last data hd
+    have hu : Gen.Cache.copyUnderfoot (H data) (H data) = false := by simp [Gen.Cache.copyUnderfoot]
+    unfold copyFile
+    simp only [hcat, hu, Bool.false_eq_true, if_false]
+    repeat' split
+    all_goals rfl
+
+theorem put_snd (H : Bytes → Hash) (fs : FS) (now : Int) (id : Hash) (data : Bytes) :
+    (put H fs now id data).2 =
+      putIndexEntry (copyFile H fs now data (H data) data.length).2 now id (H data) data.length := by
+  have h := copyFile_fst_ok H fs now data
+  unfold put
+  simp only []
+  cases hc : copyFile H fs now data (H data) data.length with
+  | mk r fs1 =>
+    rw [hc] at h
+    simp only at h
+    subst h
+    rfl
+
+theorem ite_error_ok {α σ : Type} {c : Prop} [Decidable c] {r : Reason} {v v' : α} {s1 s2 s' : σ}
+    (h : (if c then ((Except.error r : Except Reason α), s1) else (Except.ok v, s2)) = (Except.ok v', s')) :
+    ¬ c ∧ v = v' ∧ s2 = s' := by
+  split at h
+  · cases h
+  · rename_i hc; cases h; exact ⟨hc, rfl, rfl⟩
 
 end GIV.Cache
